@@ -182,9 +182,13 @@ def main():
     n = int(sys.argv[sys.argv.index('--sample') + 1]) if '--sample' in sys.argv else 40
     seed = int(sys.argv[sys.argv.index('--seed') + 1]) if '--seed' in sys.argv else 1
     only = sys.argv[sys.argv.index('--only') + 1] if '--only' in sys.argv else None
+    funcs = sys.argv[sys.argv.index('--functions') + 1].split(',') if '--functions' in sys.argv else None
+    maxprops = int(sys.argv[sys.argv.index('--maxprops') + 1]) if '--maxprops' in sys.argv else 99
     muts = candidates()
     if only:
         muts = [m for m in muts if only in m['file']]
+    if funcs:
+        muts = [m for m in muts if m['function'].split('.')[0] in funcs or m['function'] in funcs]
     rng = random.Random(seed)
     rng.shuffle(muts)
     # the constant mutants are four fifths of the candidates: take the others first in equal measure
@@ -219,7 +223,7 @@ def main():
         done += 1
         rec = dict(m, new_line=new_line, seed=seed, checks={})
         caught = False
-        for p in m['props']:
+        for p in m['props'][:maxprops]:
             t0 = time.time()
             rc, o = sh([PY, 'tools/check.py', p, '--tier', 'quick'], cwd=copy,
                        env=dict(os.environ, VERIF_REPO=scratch, VERIF_SEED='1'), timeout=3000)
